@@ -1,4 +1,6 @@
 import OdcGeo.Model.C10
+import OdcGeo.Model.C10Nd
+import OdcGeo.Model.C10Sig
 import OdcGeo.Drv.C03
 namespace OdcGeo.C10.Drv
 open OdcGeo OdcGeo.IO OdcGeo.C17 OdcGeo.C03 OdcGeo.C10
@@ -15,8 +17,49 @@ def parseNS? (s : String) : Option NSlice :=
   | [a, b] => do let a ← parseInt? a; let b ← parseInt? b; pure ⟨a, b⟩
   | _ => none
 
+/-- C-order flat index of a coordinate -/
+def flatIdx (shape c : List Nat) : Nat := (shape.zip c).foldl (fun acc p => acc * p.1 + p.2) 0
+
+def ndOfFlat (shape : List Nat) (flat : Array Int) : NdArr := fun c =>
+  if c.length = shape.length ∧ (shape.zip c).all (fun p => decide (p.2 < p.1)) then flat.getD (flatIdx shape c) 0 else 0
+
+def fmtParam (p : Param) : String :=
+  match p.dflt with
+  | .required => p.name
+  | .none_ => p.name ++ "=None"
+  | .num q => p.name ++ "=" ++ fmtRat q
+
+def fmtSig (s : Sig) : String := " ".intercalate (s.params.map fmtParam ++ (if s.kwargs then ["**kwargs"] else []))
+
+def parsePixT? (t : String) : Option PixT :=
+  match t with | "i8" => some PixT.int8 | "b" => some PixT.bool | "o" => some PixT.other | _ => none
+
 def run (args : List String) : Option String :=
   match args with
+  | ["sig", fn] => pure ((signature fn).elim "unknown" fmtSig)
+  | ["ndwarp", t, isf, nan, ydim, sshape, dshape, a, sn, dn, init, sflat, dflat] => do
+    -- rio_reproject on N-d arrays (flat C-order data)
+    let t ← parsePixT? t; let isf ← parseBool? isf; let nan ← parseInt? nan
+    let ydim ← parseOpt? parseNat? ydim
+    let sshape ← parseList? parseNat? sshape; let dshape ← parseList? parseNat? dshape
+    let a ← parseAff? a; let sn ← parseOpt? parseInt? sn; let dn ← parseOpt? parseInt? dn; let init ← parseBool? init
+    let sflat ← parseList? parseInt? sflat; let dflat ← parseList? parseInt? dflat
+    let src := ndOfFlat sshape sflat.toArray
+    let dst := ndOfFlat dshape dflat.toArray
+    match rioReprojectNd t isf nan src dst sshape dshape ydim a sn dn init with
+    | .error e => pure e.toStr
+    | .ok out => pure (fmtList fmtInt ((ndindex dshape).map out))
+  | ["warp2", entry, t, isf, nan, init, sn, dn, sny, snx, dny, dnx, a, simg, dimg] => do
+    -- the two public 2-D entry points: `rio` = rio_reproject (float default), `aff` = warp_affine
+    let t ← parsePixT? t; let isf ← parseBool? isf; let nan ← parseInt? nan
+    let init ← parseBool? init
+    let sn ← parseOpt? parseInt? sn; let dn ← parseOpt? parseInt? dn
+    let sny ← parseInt? sny; let snx ← parseInt? snx; let dny ← parseInt? dny; let dnx ← parseInt? dnx
+    let a ← parseAff? a; let simg ← parseImg? simg; let dimg ← parseImg? dimg
+    let f : Int → Int → Int :=
+      if entry = "rio" then rioReproject2 t isf nan (Warp.getPx simg 0) (Warp.getPx dimg 0) (sny, snx) a sn dn init
+      else warpAffine t (Warp.getPx simg 0) (Warp.getPx dimg 0) (sny, snx) a sn dn init
+    pure (fmtImg ((List.range dny.toNat).map fun (dy : Nat) => (List.range dnx.toNat).map fun (dx : Nat) => f dy dx))
   | ["almostint", x, tol] => do
     let x ← parseRat? x; let tol ← parseRat? tol
     pure (fmtBool (isAlmostInt x tol))
